@@ -16,6 +16,7 @@ FAMILIES = {
     "C11": {"quick": [("soft", 2500)], "thorough": [("soft", 80000)]},
     "C12": {"quick": [("create", 3000)], "thorough": [("create", 100000)]},
     "C13": {"quick": [("sign", 700)], "thorough": [("sign", 12000)]},
+    "C10": {"quick": [("malleate", (4, 5))], "thorough": [("malleate", (80, 10))]},
 }
 
 
@@ -30,7 +31,17 @@ def run(res, prop, tier, seed, work, replay=None):
     open(recs, "w").close()
     for fam, n in FAMILIES[prop][tier]:
         part = os.path.join(work, "part_%s.ndjson" % fam)
-        vlib.run([binary, part, str(seed), str(n), fam], timeout=3000)
+        if fam == "malleate":
+            # third-party modifications offered to a real follower visor (overlay test in package visor)
+            vbin = vlib.build_pkg_test(work, "src/visor", "visor")
+            out = vlib.fresh_dir(os.path.join(work, "mall"))
+            env = dict(os.environ, VERIF_OUT=out, VERIF_SEED=str(seed), VERIF_HISTORIES=str(n[0]), VERIF_BLOCKS=str(n[1]))
+            p = vlib.run([vbin, "-test.run", "TestVerifMalleate$", "-test.count=1", "-test.timeout", "3000s"], env=env, timeout=3100, check=False)
+            part = os.path.join(out, "malleate.ndjson")
+            if p.returncode != 0 or not os.path.exists(part):
+                raise Infra("malleation recorder failed:\n" + "\n".join(l for l in (p.stdout or "").splitlines() if "INFO" not in l and "DEBUG" not in l and "WARN" not in l)[-2000:])
+        else:
+            vlib.run([binary, part, str(seed), str(n), fam], timeout=3000)
         with open(recs, "a") as fh, open(part) as src:
             fh.write(src.read())
     st, mism = vlib.validate_records(SPEC, "TxnRecords", "TxnRecords.cfg", work, recs, chunk=20000, with_reason=True)
@@ -59,6 +70,10 @@ def run(res, prop, tier, seed, work, replay=None):
                 continue
             seen.add(key)
             outcome = r.get("res", "decoded" if r.get("decoded") else "undecodable")
+            if r["fn"] == "malleate":
+                outcome = "%s/%s/%s" % (r["object"], r["how"], "accepted" if r["accepted"] else "refused")
+            elif r["fn"] == "produced":
+                outcome = "recid%d" % r["recid"]
             per["%s/%s%s" % (r["fn"], outcome, ("/" + r["errkind"]) if r.get("errkind") else "")] += 1
             samples.setdefault("%s/%s" % (r["fn"], outcome), brief(r))
     res.coverage.update({
